@@ -564,7 +564,7 @@ class ClientH(object):
                     h(self, seq, msg)
         self._note_status()
 
-    def send(self, payload, retry=RetryMode.NONE, callback=True, api="send", cb_raises=False):
+    def send(self, payload, retry=RetryMode.NONE, callback=True, api="send", cb_raises=False, on_cb=None):
         """returns the ledger record; exceptions of the API are recorded in rec['raised'] and re-raised as
         WorldError only if the caller asks (properties decide)"""
         w = self.world
@@ -573,6 +573,8 @@ class ClientH(object):
 
         def cb_(ok, rec=rec):
             rec["cb"].append((w.clock.t, ok))
+            if on_cb is not None and len(rec["cb"]) == 1:
+                on_cb(ok, rec)
             if cb_raises:
                 raise RuntimeError("application callback raised (injected)")
         cb = cb_ if callback else None
@@ -841,7 +843,9 @@ class World(object):
     def server_conn(self, addr):
         return self.ctxt.connections.get(addr)
 
-    def server_send(self, addr, payload, retry=RetryMode.NONE, callback=True, api="send", cb_raises=False):
+    def server_send(self, addr, payload, retry=RetryMode.NONE, callback=True, api="send", cb_raises=False, on_cb=None, now=False):
+        """on_cb(ok, rec): application code run inside the send callback (after the result was recorded);
+        now=True: the caller already runs on the server thread (e.g. inside a callback): send immediately"""
         rec = self.ledger.sent(("s", addr), ("c", addr), payload, _retry_name(retry), self.clock.t, "server." + api)
         w = self
 
@@ -854,6 +858,8 @@ class World(object):
                 return
             def cb_(ok, rec=rec):
                 rec["cb"].append((w.clock.t, ok))
+                if on_cb is not None and len(rec["cb"]) == 1:
+                    on_cb(ok, rec)
                 if cb_raises:
                     raise RuntimeError("application callback raised (injected)")
             cb = cb_ if callback else None
@@ -864,7 +870,10 @@ class World(object):
                     conn.send(payload, retry=retry, callback=cb)
             except Exception as e:
                 rec["raised"] = "%s: %s" % (type(e).__name__, e)
-        self.server_actions.append(act)
+        if now:
+            act()
+        else:
+            self.server_actions.append(act)
         return rec
 
     def on_server_thread(self, fn):
